@@ -161,6 +161,7 @@ fn note_depth(what: &str) {
     }
 }
 
+pub static RAW_PJ: Mutex<Option<Vec<u8>>> = Mutex::new(None);
 pub static ERRNUL: std::sync::atomic::AtomicBool = std::sync::atomic::AtomicBool::new(false);
 pub static TRACK: std::sync::atomic::AtomicBool = std::sync::atomic::AtomicBool::new(false);
 
@@ -372,6 +373,13 @@ pub fn abs_pj(storage: &Path) -> String {
         Ok(s) => {
             let mut bad: Vec<usize> = s.known_bad_patches.into_iter().collect();
             bad.sort();
+            // C04_torn_state_file_is_garbage speaks of texts that begin with '{' and end with '}': flag a readable file
+            // written by the library that does not (a file holding exactly the bytes of the last `dmg rawpj` is the harness' own)
+            let first = bytes.iter().find(|c| !b" \t\n\r".contains(c)).copied();
+            let raw = RAW_PJ.lock().unwrap().as_ref().map_or(false, |b| *b == bytes);
+            if !raw && (first != Some(b'{') || bytes.last() != Some(&b'}')) {
+                return "SHAPE".into();
+            }
             format!(
                 "{}/{}/{}/[{}]",
                 pr_meta(&s.last_booted_patch),
@@ -759,6 +767,7 @@ impl World {
                 std::fs::write(pdir(n).join("dlc.vmcode"), self.blob(b)).unwrap();
             }
             ["rawpj", b] => {
+                *RAW_PJ.lock().unwrap() = Some(self.blob(b));
                 std::fs::write(self.storage.join("patches_state.json"), self.blob(b)).unwrap();
             }
             ["rawsj", b] => {
